@@ -30,6 +30,11 @@ structure BVertex where
   ifOps : List MOp := []
   /-- `IfStart.is_not` (`invert_branches`) -/
   isNot : Bool := false
+  /-- `SwitchStart(switch_id)` marker (`build_and_group_switch_cases`): the Python object is then `SsbLabelJump(op, None)`
+  around the plain switch op that stays in `op` -/
+  switchStart : Option Nat := none
+  /-- `SwitchEnd(switch_id)` markers of a label, in the order they were added -/
+  switchEnds : List Nat := []
 deriving DecidableEq, Repr
 
 structure BEdge where
@@ -38,6 +43,8 @@ structure BEdge where
   level : Nat
   loop : Bool
   isElse : Bool := false
+  /-- the edge attribute "switch_ops": `SwitchCaseOperation(switch_index, index, op)` triples; `[]` for `None` -/
+  switchOps : List (Nat × Nat × MOp) := []
 deriving DecidableEq, Repr
 
 structure BGraph where
@@ -50,11 +57,11 @@ def BEdge.toEdge (e : BEdge) : Edge := ⟨e.src, e.dst, e.level, e.loop⟩
 /-- forget names, markers and `is_else` -/
 def BGraph.toGraph (g : BGraph) : Graph := ⟨g.vs.map (·.op), g.es.map BEdge.toEdge⟩
 
-def BEdge.ofEdge (e : Edge) : BEdge := ⟨e.src, e.dst, e.level, e.loop, false⟩
+def BEdge.ofEdge (e : Edge) : BEdge := ⟨e.src, e.dst, e.level, e.loop, false, []⟩
 
 /-- the graph that leaves `optimize_paths`, with the vertex names (by vertex id); no markers, no else-edges -/
 def BGraph.ofGraph (names : List (Option Nat)) (g : Graph) : BGraph :=
-  ⟨g.vs.zipIdx.map fun p => ⟨(names[p.2]?).join, p.1, none, [], [], false⟩, g.es.map BEdge.ofEdge⟩
+  ⟨g.vs.zipIdx.map fun p => ⟨(names[p.2]?).join, p.1, none, [], [], false, none, []⟩, g.es.map BEdge.ofEdge⟩
 
 /-- vertex names of a base graph: item vertices are "v<i>", foreign label vertices (appended behind the items)
 are "FLR<from…>" -/
@@ -129,7 +136,7 @@ def setElse (g : BGraph) (i : Nat) : BGraph :=
 /-- `SsbLabelJump.add_marker` raises ValueError when the jump already carries a marker (CallJump, IfStart) -/
 def hasMarker (g : BGraph) (v : Nat) : Bool :=
   match g.vs[v]? with
-  | some ⟨_, .item (.ljump _ _ call), ifs, _, _, _⟩ => call || ifs.isSome
+  | some ⟨_, .item (.ljump _ _ call), ifs, _, _, _, _, _⟩ => call || ifs.isSome
   | _ => false
 
 /-- `_goes_back(e)`: both ends are named "v<i>" and the target's original index is not behind the source's -/
